@@ -120,6 +120,21 @@ def cases(tier, seed, args):
             if sc['wca'] not in [(-1,), -1, [-1]]:
                 sc['wca'], sc['wca_type'] = (-1,), 'tuple'
             out.append(dict(t='model', **sc))
+        # held-out observations on extreme scales against models with floored (rank-deficient) class covariances
+        for i in range(6 if q else 36):
+            kind = ['gcacgmm', 'cacgmm', 'vmfcacgmm', 'gcacgmm', 'cwmm', 'cbmm'][i % 6]
+            sc = scenario(rng, kind, tier)
+            sc.update(regime='scaled', init='hard', dtype='float64', K=2, D=4 if kind != 'cbmm' else 3, N=6, iterations=1 + i % 2, sam=False,
+                      aligner=False, saliency=False, heldout=True)
+            sc.pop('wca_pos', None)
+            out.append(dict(t='model', **sc))
+        # predict with a source-activity mask, with and without the quadratic forms returned as well
+        for i in range(4 if q else 24):
+            sc = scenario(rng, 'cacgmm', tier)
+            sc.update(regime='regular', init='soft', dtype='float64', K=2 + i % 2, iterations=2, sam=True, aligner=False, saliency=False,
+                      with_qf=bool(i % 2 == 0))
+            sc.pop('wca_pos', None)
+            out.append(dict(t='model', **sc))
         # single precision throughout (observations, start, model) with an all-zero frame; one M-step, then predict
         for i in range(6 if q else 36):
             kind = ['cacgmm', 'gcacgmm', 'vmfcacgmm', 'cacgmm', 'cwmm', 'cacgmm'][i % 6]
@@ -189,6 +204,14 @@ def cases(tier, seed, args):
             out.append(dict(t='domain_single', D=3 + i % 2, N=[2, 6, 3][i % 3], L=[[], [2]][(i // 3) % 2], seed=int(rng.integers(1 << 30)),
                             norm=['eigenvalue', 'trace', 'none'][i % 3], floor=[1e-10, 1e-3, 0.1][(i // 3) % 3], iterations=1 + i % 3,
                             dup=bool(i % 3 == 1)))
+        # observations with a common offset of 1e5 .. 1e7 times their spread (covariances stay symmetric positive definite)
+        for i in range(6 if q else 36):
+            kind = ['gmm', 'gmm', 'gcacgmm'][i % 3]
+            sc = scenario(rng, kind, tier)
+            sc.update(regime='regular', init='soft', dtype='float64', K=2, iterations=1 + i % 3, saliency=bool(i % 2), sam=False, aligner=False,
+                      offset=[1e6, 1e5, 1e7][(i // 3) % 3], N=max(sc['N'], 12))
+            sc['opts'] = dict(sc['opts'], covariance_type=['full', 'diagonal', 'full'][i % 3])
+            out.append(dict(t='domain', **sc))
         # exactly zero variances: a class owning a single frame (hard start, one M-step), constant coordinates
         for i in range(6 if q else 36):
             sc = scenario(rng, 'gmm', tier)
@@ -315,6 +338,9 @@ def model_case(case, want=('predict', 'fit_predict', 'estep')):
     rng = np.random.default_rng(case['seed'])
     kind, L, K, D, N = case['kind'], case['L'], case['K'], case['D'], case['N']
     data = ml.make_data(rng, kind, L, K, D, N, regime=case['regime'], E=case.get('E'), dtype=case['dtype'])
+    if case.get('offset') and kind in ('gmm', 'gcacgmm'):
+        key_ = 'y' if kind == 'gmm' else 'emb'
+        data[key_] = data[key_] + case['offset']        # common offset far larger than the spread
     init = ml.make_init(rng, L, K, N, style=case['init'], lead_singleton=bool(case.get('lead_singleton')))
     if case.get('tiny_class'):
         init[..., 0, :] = case['tiny_class']
@@ -363,9 +389,21 @@ def model_case(case, want=('predict', 'fit_predict', 'estep')):
         kw = {}
         if sam is not None:
             kw['source_activity_mask'] = sam
-        aff, e = call(ml.predict, kind, model, data, **kw)
-        recs.append(ml.posterior_record(kind, model, data, aff, wca=wrec, sam=sam, eps=0.0, exc=e, explicit=e in EXPLICIT,
-                                        fp=fp + ';call=predict', key=key + ':p', full=[*L, K, N]))
+        data_p = data
+        if case.get('heldout'):
+            # posteriors of observations the model has not been fitted on (frames that match no class well)
+            r2 = np.random.default_rng(case['seed'] + 7)
+            data_p = ml.make_data(r2, kind, L, K, D, N, regime='scaled' if case['regime'] == 'scaled' else 'regular', E=case.get('E'),
+                                  dtype=case['dtype'])
+        if case.get('with_qf') and kind == 'cacgmm':
+            # the documented variant that also returns the quadratic forms: same posterior, same mask handling
+            res_, e = call(model.predict, data_p['y'], return_quadratic_form=True, **kw)
+            aff = None if res_ is None else res_[0]
+        else:
+            aff, e = call(ml.predict, kind, model, data_p, **kw)
+        recs.append(ml.posterior_record(kind, model, data_p, aff, wca=wrec, sam=sam, eps=0.0, exc=e, explicit=e in EXPLICIT,
+                                        fp=fp + f';call=predict;heldout={bool(case.get("heldout"))};qf={bool(case.get("with_qf"))}',
+                                        key=key + ':p', full=[*L, K, N]))
     if 'fit_predict' in want:
         aff, e = call(ml.fit, kind, data, init, case['iterations'], opts, predict=True,
                       trainer=ml.trainer_for(kind, **case.get('trainer_kw', {})))
